@@ -3,38 +3,65 @@ CHECK = {
     "harness": "h-c11",
     "translators": ["c11_constants"],
     "level": "proof",
-    "technique": "Lean 4 theorems over executable curve models (grind over Lean.Grind.Field/CommRing, decide +kernel on "
-                 "generated constants) + structural correspondence of the models with the Rust types",
+    "technique": "Lean 4 theorems over executable curve models (grind over Lean.Grind.Field/CommRing, list induction "
+                 "with accumulator invariants for the batch/Sum routines, decide +kernel on generated constants) + "
+                 "structural correspondence of the models with the Rust types",
     "rule": "one case = one request line `<curve> <op>[:<impl path>] <canonical operands>` answered by both the real "
             "type and the Lean model; a case is non-trivial unless it only restates a constant; distinctness by hash "
             "of the request line (so the same operation through another operator overload / representation mix "
             "counts separately: it is a different code path)",
     "explanation": "Kernel-checked theorems: every pure-Rust curve formula (Jubjub extended/Niels/double/neg/multiply "
                    "loop; BN254 Renes-Costello-Batina add/mixed/double) equals the affine group law for all inputs; "
-                   "completeness of the a=-1 Edwards law; Jacobian/homogeneous conversions and equality tests; codec "
-                   "canonicity (Jubjub), flag discipline (BLS12-381), tag discipline (secp256k1); constants parsed from "
-                   "the sources satisfy their defining equations. The same definitions are compiled into mzk-c11 and "
-                   "compared with the implementation (raw coordinates for the pure-Rust types, affine values and byte "
-                   "strings for the blst/k256/dalek wrappers) on all operand/scalar/encoding classes of the property; "
-                   "the harness also checks the property directly against an affine law over num-bigint.",
+                   "completeness of the a=-1 Edwards law; is_torsion_free = ([r]P = O) and is_small_order = (u([4]P) = 0) "
+                   "by the affine schedule; the Sum fold of Jubjub equals the fold of the affine law for every list; the "
+                   "shared-inversion batch routines (ff BatchInverter / batch_invert as used by Jubjub batch_normalize, the "
+                   "in-place free function and batch_from_bytes; the hand-written passes of derive/curve.rs) modelled pass "
+                   "by pass and proved equal to element-wise inversion / to_affine for every length with zeros (Z = 0, "
+                   "identities) at any position; Jacobian/homogeneous conversions and equality tests; codec canonicity "
+                   "(Jubjub), flag discipline of BLS12-381 compressed and uncompressed forms (infinity flag only with an "
+                   "all-zero body, no flag on a finite uncompressed point, x >= p rejected, the sign flag IS the "
+                   "lexicographic sign of y - c1 first for Fp2 - so the wrong sign bit never decodes to the same point), "
+                   "BN254 identity/sign flags, secp256k1 tag = 02 + parity(y); constants parsed from the sources satisfy "
+                   "their defining equations. The same definitions are compiled into mzk-c11 and compared with the "
+                   "implementation (raw coordinates for the pure-Rust types, affine values and byte strings for the "
+                   "blst/k256/dalek wrappers) on all operand/scalar/encoding classes of the property; the harness also "
+                   "checks the property directly against an affine law over num-bigint. A coverage table (type family x "
+                   "trait method -> model line / variant / oracle only / known finding / other property) is written to "
+                   "stats.json (extra.coverage_table, harness/c11/src/cover.rs). The correspondence is deliberately tight "
+                   "for the pure-Rust types: a re-association that changes the raw (U,V,Z,T1,T2) / (X,Y,Z) representative "
+                   "of a result (not its affine value) changes an impl line and fires; affine values are compared for the "
+                   "wrapped libraries only.",
     "trusted_base": [
-        "blst (G1/G2 point routines, hash-to-curve used only to draw random operands), k256 and curve25519-dalek "
-        "internals: specified by the affine group law and the byte-level decoder models, checked by correspondence only",
+        "blst (G1/G2 point routines incl. the Fp2 sign and flag handling in C, hash-to-curve), k256 and "
+        "curve25519-dalek internals: specified by the affine group law and the byte-level decoder models, checked "
+        "by correspondence only (exhaustive flag sweeps, sign flips, infinity flag with a body byte at every "
+        "position, +p aliases of every coordinate slot, single-bit corruptions, random strings)",
+        "crate ff's BatchInverter: modelled from its source (two passes with zero skips) and proved; tied through "
+        "the results of batch_normalize / batch_from_bytes only (its scratch values are overwritten)",
+        "hash_to_curve (hash_to_curve.rs, blst): not modelled; only determinism, domain separation, on-curve and "
+        "prime-order-subgroup membership of the outputs are checked",
         "translator translators/c11_constants.py (prints the constants of the Rust sources into Gen/C11Constants.lean)",
     ],
     "assumptions": [
         "primality of the coordinate-field moduli (BLS12-381 scalar modulus: property C10; the others are hypotheses): "
         "the theorems are stated over an arbitrary field / commutative ring, the driver evaluates them over Z/p",
-        "associativity of the group laws is not proved: the multiply-loop theorem relates the code to the affine "
-        "double-and-add schedule, not to an abstract k·P",
+        "associativity of the group laws is not proved: the multiply-loop / torsion / Sum theorems relate the code to "
+        "the affine double-and-add schedule and the affine left fold, not to an abstract k*P",
         "completeness of the Renes-Costello-Batina formulas (Z3 != 0) on BN254 is a hypothesis of the affine corollaries "
         "(*_spec_partial); the fraction-free statements need no hypothesis",
+        "the sign-flag / tag theorems (*_partial) assume the decoded y is non-zero: BLS12-381 and secp256k1 have no "
+        "point of order two (odd group orders), which is not proved in Lean",
+        "full byte-level canonicity (decode accepted => encode gives the same bytes) is a theorem for Jubjub only; for "
+        "the flag-bit codecs the flag/sign/range parts are theorems and the body round trip is sampled",
     ],
-    "level_text": "Kernel-checked Lean theorems about executable models of the curve formulas, conversions and codecs "
-                  "(all inputs, all representations), with the models run against the real curve types on every check",
+    "level_text": "Kernel-checked Lean theorems about executable models of the curve formulas, batch routines, "
+                  "conversions and codecs (all inputs, all lengths, all representations), with the models run against "
+                  "the real curve types on every check and a type x method coverage table in the evidence",
     "level_note": "Trusted: Lean kernel, harness and driver. blst / k256 / curve25519-dalek internals are specified "
-                  "(affine law, decoder models) and checked by correspondence, not verified. Known findings: blst's "
-                  "endomorphism-based scalar multiplication is wrong outside the prime-order subgroup (reachable through "
-                  "on-curve-only constructors); curve25519-dalek's decoder accepts non-canonical encodings.",
+                  "(affine law, decoder models) and checked by correspondence, not verified; hash_to_curve is only "
+                  "checked for subgroup membership and determinism. Known findings: blst's endomorphism-based scalar "
+                  "multiplication is wrong outside the prime-order subgroup (reachable through on-curve-only "
+                  "constructors); curve25519-dalek's decoder accepts non-canonical encodings; the checked raw-bytes "
+                  "reader (SerdeObject::read_raw) of the BN254 dev-curve types accepts off-curve points.",
     "timeout": {"quick": 900, "thorough": 3000, "search": 900},
 }
